@@ -25,6 +25,8 @@ CLAIM = (
     "chains visit parents before children (a child processed first loses the grandparent's constraints)."
     " SKIPS: the loops of the functions in scope have no more `continue`, `break` or in-loop `return` statements than the reference "
     "read on the unchanged tree (baselines/skips.json): a new skip means elements that were handled are no longer handled."
+    " TRUTHY: in the modules in scope no Optional[int|str|float|bytes] is tested by truthiness (a bound of 0 or an empty pattern is a "
+    "constraint, not the absence of one); zero instances on the unchanged tree, kept alive by a positive control."
 )
 NOTE = (
     "Oracle: base64 text length 4*ceil(n/3). Documented exclusions (by design of the generator, stated in the property): tightenings "
@@ -69,6 +71,13 @@ def run(ctx) -> None:
         if _m.name == "aas_core_codegen.jsonschema.main" or _m.name.startswith("aas_core_codegen.infer_for_schema"):
             for _f in _m.functions.values():
                 _skips.check_skips(ctx, _f, "SKIPS", _base)
+    ctx.rule("TRUTHY", "no Optional int/str/float/bytes is tested by truthiness (0 and the empty string are values, not absence)", floor=1)
+    from ..rules import truthy as _truthy
+    _truthy.positive_control(ctx, "TRUTHY")
+    for _m in ctx.p.modules.values():
+        if _m.name == "aas_core_codegen.jsonschema.main" or _m.name.startswith("aas_core_codegen.infer_for_schema"):
+            for _f in _m.functions.values():
+                _truthy.check_truthy(ctx, _f, "TRUTHY")
 
 
 def _source_guard_ok(guards, attr: str) -> Tuple[bool, str]:
